@@ -623,6 +623,50 @@ def _taint_mutations(ctx: Ctx, f: FuncInfo, path: Path, tt: _Taint, seen: Set[st
                         yield f"passed as `{pn}` to {t.qualname}, which mutates it ({mp[pn]})"
 
 
+def _kept_settings_parts(ctx: Ctx, g0: FuncInfo) -> None:
+    """setup() may keep a reference to a part of its settings (self.x = settings[k]): the object is
+    still the caller's, so no method of the class may change it in place later on."""
+    assert g0.cls is not None
+    kept: Dict[str, str] = {}
+    for path in ctx.paths(g0.qualname):
+        if path.exit[0] == "raise":
+            continue
+        tt = _Taint(ctx, g0, path, {"settings"})
+        for e in path.walk_events():
+            if e.kind == "store" and e.attr is not None and e.base is not None and key(strip_ver(e.base)) == "self" and tt.tainted(e.value):
+                kept.setdefault(e.attr, short(e.value))
+    if not kept:
+        return
+    p = ctx.program
+    classes = [c for c in p.classes if p.is_subclass(c, g0.cls.name)]
+    for attr, src in sorted(kept.items()):
+        probs: List[str] = []
+        rebinds: List[str] = []
+        for c in classes:
+            for m in p.classes[c].methods.values():
+                for fn in [m] + list(m.nested.values()):
+                    try:
+                        paths = ctx.paths(fn.qualname)
+                    except Exception:
+                        continue
+                    for path in paths:
+                        if fn.qualname not in (g0.qualname, f"{c}.__init__"):
+                            for e in path.walk_events():
+                                if e.kind == "store" and e.attr == attr and e.base is not None and key(strip_ver(e.base)) == "self" and fn.qualname not in rebinds:
+                                    rebinds.append(fn.qualname)
+                        tt = _Taint(ctx, fn, path, {f"self.{attr}"})
+                        for why in _taint_mutations(ctx, fn, path, tt, set()):
+                            if why not in probs:
+                                probs.append(why)
+        construct = f"{g0.qualname} keeps a part of its settings in self.{attr}"
+        if probs and rebinds:
+            ctx.unrec(g0, g0.node, construct, f"self.{attr} ({src}) is changed in place ({probs[0]}) but is also rebound in {', '.join(rebinds[:3])}: whether the object changed is still the caller's is not decided")
+        elif probs:
+            ctx.violated(g0, g0.node, construct, "the object is the caller's: read only, or copied before it is changed", f"self.{attr} = {src}; then {'; '.join(probs[:3])}")
+        else:
+            ctx.holds(g0, g0.node, construct, expected="never changed in place", found=f"self.{attr} = {src}: no store/del/mutator on it in {len(classes)} class(es)")
+
+
 def check_setups_pure(ctx: Ctx, base: Optional[str]) -> None:
     """the group settings handed to setup() are shared (one dict for all members of a group, and
     shallow copies of the caller's configuration): no setup implementation may change what its
@@ -636,6 +680,7 @@ def check_setups_pure(ctx: Ctx, base: Optional[str]) -> None:
         ns += 1
         mp0 = _mutated_params(ctx, g0)
         ctx.check("settings" not in mp0, g0, g0.node, f"{g0.qualname} leaves the settings it is given untouched", "no store/del/mutator on anything reachable from `settings`", mp0.get("settings", "no mutation"))
+        _kept_settings_parts(ctx, g0)
     ctx.require(ns >= (8 if base is None else 3), "fewer setup(settings) implementations than confirmed by reading")
 
 
